@@ -6,6 +6,7 @@ import (
 	"go/token"
 	"go/types"
 	"math/big"
+	"os"
 	"strings"
 
 	"golang.org/x/tools/go/ssa"
@@ -21,11 +22,12 @@ func init() {
 			"R4.3: the highest-seen layers only grow and only to the packet's own layer; adjustLayer moves a wanted layer by exactly one step inside [0, highest seen] (or to 0), at most one store per call, and touches nothing else; no other function stores the current or highest layers. " +
 			"R4.4: no path of Write reaches the sequence-number map (and hence a write) with the packet's temporal or spatial layer above the current one without first asking the map to withhold it. " +
 			"R4.5: replaceTracks installs the low-quality limit on every track and resets the wanted spatial layer to 0 with it; adjustLayer never stores a wanted spatial layer other than 0 on a limited track (so that, with the reset at installation and Write's not-limited guard, every stored selection with the limit has wantedSid 0); requestedTracks sets the limit only for a low-quality request on a publisher without simulcast. " +
-			"R4.6 (proof): every value stored into the loss-based ceiling lies in [minLossRate, maxLossRate].",
+			"R4.6 (proof): every value stored into the loss-based ceiling lies in [minLossRate, maxLossRate]. " +
+			"R4.7: codecs.PacketFlags marks a packet as the start of a frame only where the payload descriptor says so (VP8: S bit and partition index 0; VP9: B bit), and as a keyframe only at such a start.",
 		NotDecided: []string{
 			"that a drop attempt succeeds (only in-order packets can be withheld: C01 R1.2)",
 			"lost updates between the writer goroutine and the RTCP listener on the packed layer word (each stored word is derived from one consistent snapshot)",
-			"correctness of the tid/sid/keyframe/up-sync flags extracted by codecs.PacketFlags",
+			"correctness of the tid/sid/up-sync flags and of the keyframe bit tests in codecs.PacketFlags (R4.7 covers only where a frame starts)",
 		},
 		NeedSSA: true,
 		Run:     runC04,
@@ -45,6 +47,8 @@ func runC04(c *Ctx) {
 	c.Rule("R4.4", "E3", "no packet above the current layers reaches the map without a withhold attempt", 2)
 	c.Rule("R4.5", "E2", "low-quality limit installed on every track, honoured by adjustLayer, set only without simulcast", 4)
 	c.Rule("R4.6", "E6", "loss-based ceiling within [minLossRate, maxLossRate] (interval proof)", 1)
+	c.Rule("R4.7", "E2", "a packet starts a frame only where its payload descriptor says so; keyframes only at frame starts", 4)
+	runC04Flags(c)
 	wr := p.Func("rtpconn", "rtpDownTrack", "Write")
 	al := p.Func("rtpconn", "rtpDownTrack", "adjustLayer")
 	if wr == nil || al == nil {
@@ -580,10 +584,38 @@ func runC04(c *Ctx) {
 func limitRequestOK(p *Program, rq *FuncSrc) (ok bool, n int) {
 	info := rq.Pkg.TypesInfo
 	ff := p.Facts().Analyze(rq)
-	lim, vl, vid := rq.localVar("limitSid"), rq.localVar("videoLow"), rq.localVar("video")
-	if lim == nil || vl == nil || vid == nil {
+	// by role: the limit is what requestedTracks returns second; the flags are the
+	// locals set under the request strings
+	flags, okF := requestFlags(p, rq)
+	lims := map[types.Object]bool{}
+	if rq.Decl != nil && rq.Decl.Type.Results != nil {
+		k := 0
+		for _, fld := range rq.Decl.Type.Results.List {
+			for _, nm := range fld.Names {
+				if k == 1 {
+					lims[info.Defs[nm]] = true
+				}
+				k++
+			}
+		}
+	}
+	ast.Inspect(rq.Body(), func(m ast.Node) bool {
+		if _, isLit := m.(*ast.FuncLit); isLit {
+			return false
+		}
+		if rs, isR := m.(*ast.ReturnStmt); isR && len(rs.Results) == 2 {
+			if id, isId := unparen(rs.Results[1]).(*ast.Ident); isId {
+				if v, isV := info.Uses[id].(*types.Var); isV {
+					lims[v] = true
+				}
+			}
+		}
+		return true
+	})
+	if !okF || len(lims) == 0 {
 		return false, 0
 	}
+	vl, vid := flags["video-low"], flags["video"]
 	ok = true
 	ast.Inspect(rq.Body(), func(m ast.Node) bool {
 		if _, isLit := m.(*ast.FuncLit); isLit {
@@ -595,7 +627,7 @@ func limitRequestOK(p *Program, rq *FuncSrc) (ok bool, n int) {
 		}
 		for i, l := range as.Lhs {
 			id, isId := l.(*ast.Ident)
-			if !isId || info.ObjectOf(id) != lim {
+			if !isId || !lims[info.ObjectOf(id)] {
 				continue
 			}
 			if len(as.Rhs) != len(as.Lhs) {
@@ -613,7 +645,7 @@ func limitRequestOK(p *Program, rq *FuncSrc) (ok bool, n int) {
 				// limitSid = <condition>: it becomes true exactly where the condition holds
 				st = ff.assume(st, rhs, true)
 			}
-			if st == nil || !st.HasFact(mkFact(true, "true", TVar(vl), nil)) || !st.HasFact(mkFact(false, "true", TVar(vid), nil)) {
+			if st == nil || !flagFact(st, vl, true) || !flagFact(st, vid, false) {
 				ok = false
 				continue
 			}
@@ -630,4 +662,131 @@ func limitRequestOK(p *Program, rq *FuncSrc) (ok bool, n int) {
 		return true
 	})
 	return ok, n
+}
+
+// R4.7: the layer switches of R4.1/R4.2 are legal only because flags.Start is
+// the first packet of a frame.  Every store to Flags.Start / Flags.Keyframe in
+// PacketFlags is decided by assuming the stored expression true: for a VP8
+// descriptor that must give S != 0 and partition index 0, for VP9 the B bit.
+func runC04Flags(c *Ctx) {
+	p := c.P
+	pf := p.Func("codecs", "", "PacketFlags")
+	if pf == nil {
+		c.Unknown("R4.7", "anchors", 0, "codecs.PacketFlags not found")
+		return
+	}
+	info := pf.Pkg.TypesInfo
+	ff := p.Facts().Analyze(pf)
+	startF, keyF := p.Field("codecs", "Flags", "Start"), p.Field("codecs", "Flags", "Keyframe")
+	if startF == nil || keyF == nil {
+		c.Unknown("R4.7", "anchors", 0, "Flags.Start / Flags.Keyframe not found")
+		return
+	}
+	// the descriptor locals, by type
+	descr := map[string]types.Object{}
+	ast.Inspect(pf.Body(), func(n ast.Node) bool {
+		if id, ok := n.(*ast.Ident); ok {
+			if v, ok := info.Defs[id].(*types.Var); ok {
+				if nt, ok := v.Type().(*types.Named); ok && (nt.Obj().Name() == "VP8Packet" || nt.Obj().Name() == "VP9Packet") {
+					descr[nt.Obj().Name()] = v
+				}
+			}
+		}
+		return true
+	})
+	fieldOf := func(v types.Object, name string) *types.Var {
+		st, ok := v.Type().Underlying().(*types.Struct)
+		if !ok {
+			return nil
+		}
+		for i := 0; i < st.NumFields(); i++ {
+			if st.Field(i).Name() == name {
+				return st.Field(i)
+			}
+		}
+		return nil
+	}
+	// what "frame start" means per descriptor
+	startFacts := func(st *State) (string, bool) {
+		if v := descr["VP8Packet"]; v != nil {
+			s, pid := fieldOf(v, "S"), fieldOf(v, "PID")
+			if s != nil && pid != nil {
+				okS, okP := false, false
+				for _, f := range st.Facts() {
+					if f.Op != "eq" || f.A == nil || f.B == nil {
+						continue
+					}
+					for _, pr := range [][2]*Term{{f.A, f.B}, {f.B, f.A}} {
+						fl, cst := pr[0], pr[1]
+						if fl.K != 'f' || len(fl.Args) != 1 || fl.Args[0].K != 'v' || fl.Args[0].Obj != v || cst.K != 'c' {
+							continue
+						}
+						// S != 0 (or S == 1: a one-bit field), PID == 0
+						if fl.Obj == s.Origin() && ((cst.Name == "0" && !f.Pos) || (cst.Name == "1" && f.Pos)) {
+							okS = true
+						}
+						if fl.Obj == pid.Origin() && cst.Name == "0" && f.Pos {
+							okP = true
+						}
+					}
+				}
+				if okS && okP {
+					return "VP8", true
+				}
+			}
+		}
+		if v := descr["VP9Packet"]; v != nil {
+			if b := fieldOf(v, "B"); b != nil {
+				if st.HasFact(mkFact(true, "true", TField(TVar(v), b), nil)) {
+					return "VP9", true
+				}
+			}
+		}
+		return "", false
+	}
+	nStart, nKey := 0, 0
+	ast.Inspect(pf.Body(), func(n ast.Node) bool {
+		as, ok := n.(*ast.AssignStmt)
+		if !ok || len(as.Lhs) != len(as.Rhs) {
+			return true
+		}
+		for i, l := range as.Lhs {
+			se, ok := unparen(l).(*ast.SelectorExpr)
+			if !ok {
+				continue
+			}
+			fld, _ := info.Uses[se.Sel].(*types.Var)
+			if fld == nil || (fld.Origin() != startF && fld.Origin() != keyF) {
+				continue
+			}
+			rhs := unparen(as.Rhs[i])
+			if tv := info.Types[rhs]; tv.Value != nil && tv.Value.String() == "false" {
+				continue
+			}
+			st, _ := ff.At(as)
+			if st != nil {
+				st = ff.assume(st, rhs, true)
+			}
+			which, okSt := "", false
+			if st != nil {
+				which, okSt = startFacts(st)
+			}
+			if !okSt && os.Getenv("GALINT_DEBUG_R47") != "" {
+				fmt.Fprintln(os.Stderr, "R4.7 state:", st)
+			}
+			name := "Start"
+			if fld.Origin() == keyF {
+				name = "Keyframe"
+				nKey++
+			} else {
+				nStart++
+			}
+			c.Check(okSt, "R4.7", fmt.Sprintf("PacketFlags: %s set #%d", name, map[bool]int{true: nKey, false: nStart}[name == "Keyframe"]), as.Pos(),
+				"true only at the first packet of a frame ("+which+" descriptor)", "flags."+name+" can be true on a packet that does not start a frame (VP8: S bit and partition index 0; VP9: B bit): layer switches and drops would cut frames in the middle")
+		}
+		return true
+	})
+	if nStart < 2 || nKey < 2 {
+		c.Bad("R4.7", "PacketFlags sets Start and Keyframe for VP8 and VP9", pf.Pos(), fmt.Sprintf("%d stores to Start, %d to Keyframe found (expected at least 2 each)", nStart, nKey))
+	}
 }
